@@ -337,6 +337,9 @@ func (rig *parsimRig) toViolations(prop string, pv []PViolation) []Violation {
 				key = raceKey(v.Outcome.Detail)
 			} else {
 				key = fmt.Sprintf("%s run=%d", v.Case.Mode, v.Case.Run)
+				if v.Case.RunTo > v.Case.Run {
+					rp.To = v.Case.RunTo
+				}
 			}
 		default:
 			sv := rig.shrink(v, false)
